@@ -4,6 +4,8 @@ package main
 // (Burstall-Bornat components with versions), obligations.
 
 import (
+	"crypto/sha256"
+	"encoding/hex"
 	"fmt"
 	"go/token"
 	"go/types"
@@ -68,6 +70,7 @@ type Obligation struct {
 	Known   string
 	Candidate bool // the model comes from the quantifier-free relaxation
 	Block   *ssa.BasicBlock
+	EnvFn   func() *Env // environment in which a known-finding region is evaluated (loop clauses: iteration start)
 }
 
 type VC struct {
@@ -115,6 +118,7 @@ type VC struct {
 	storeHeap *Heap
 	tagBlock *ssa.BasicBlock // while a latch block is executed once per predecessor: that predecessor
 	dupSfx   string
+	fp       string
 	lineBlock []int
 	anc      map[*ssa.BasicBlock]map[int]bool
 }
@@ -188,7 +192,7 @@ func (vc *VC) assume(reach, f string) {
 	if f == "true" {
 		return
 	}
-	vc.emit(fmt.Sprintf("(assert %s)", implies(reach, f)))
+	vc.emit(fmt.Sprintf("(assert %s)", cse(implies(reach, f))))
 }
 
 // ---- components ----------------------------------------------------------
@@ -538,7 +542,7 @@ func (vc *VC) oblige(kind, label string, tags []string, reach, goal, src string)
 	if vc.curPos.IsValid() {
 		pos = vc.prog.prog.Fset.Position(vc.curPos)
 	}
-	o := &Obligation{Name: name, Kind: kind, Tags: tags, Prefix: len(vc.lines), Goal: implies(reach, goal), Src: src, Pos: pos, Fn: vc.key, Block: vc.curBlock}
+	o := &Obligation{Name: name, Kind: kind, Tags: tags, Prefix: len(vc.lines), Goal: cse(implies(reach, goal)), Src: src, Pos: pos, Fn: vc.key, Block: vc.curBlock}
 	if vc.tagBlock != nil {
 		o.Block = vc.tagBlock
 	}
@@ -616,6 +620,55 @@ func (vc *VC) query(o *Obligation, produceModel bool) string {
 	fmt.Fprintf(&b, "(assert (not %s))\n(check-sat)\n", o.Goal)
 	if produceModel {
 		b.WriteString("(get-model)\n")
+	}
+	return b.String()
+}
+
+// fingerprint of everything a query of this VC can contain (preamble and all lines, with their
+// block tags); computed once.  The verdict cache is keyed by it plus the obligation's own data.
+func (vc *VC) fingerprint() string {
+	vc.mu.Lock()
+	defer vc.mu.Unlock()
+	if vc.fp != "" {
+		return vc.fp
+	}
+	h := sha256.New()
+	h.Write([]byte(vc.u.preamble()))
+	for i, l := range vc.lines {
+		fmt.Fprintf(h, "%d|%s\n", vc.lineBlock[i], l)
+	}
+	vc.fp = hex.EncodeToString(h.Sum(nil))
+	return vc.fp
+}
+
+func (vc *VC) oblKey(o *Obligation) string {
+	bi := -1
+	if o.Block != nil {
+		bi = o.Block.Index
+	}
+	return fmt.Sprintf("%s|%d|%d|%s", vc.fingerprint(), o.Prefix, bi, o.Goal)
+}
+
+// queryBatch: one script deciding several obligations that share a program point (same context)
+func (vc *VC) queryBatch(os []*Obligation) string {
+	vc.mu.Lock()
+	defer vc.mu.Unlock()
+	o := os[0]
+	var b strings.Builder
+	b.WriteString(vc.u.preamble())
+	var anc map[int]bool
+	if o.Block != nil {
+		anc = vc.ancestors(o.Block)
+	}
+	for i, l := range vc.lines[:o.Prefix] {
+		if anc != nil && vc.lineBlock[i] >= 0 && !anc[vc.lineBlock[i]] {
+			continue
+		}
+		b.WriteString(l)
+		b.WriteString("\n")
+	}
+	for _, g := range os {
+		fmt.Fprintf(&b, "(push 1)\n(assert (not %s))\n(check-sat)\n(pop 1)\n", g.Goal)
 	}
 	return b.String()
 }
